@@ -23,6 +23,9 @@ fn main() {
             }
         }
     }
+    if args[1] == "c20-child" {
+        std::process::exit(cvlib::props::c20::child_main(&args[2]));
+    }
     if args[1] == "debug-solve" {
         // cv debug-solve <replay-file>: solve the case's (ps, st) verbosely and dump what the checks look at
         let txt = std::fs::read_to_string(&args[2]).expect("file");
